@@ -29,6 +29,8 @@ import (
 	"github.com/fabiolb/fabio/config"
 	"github.com/fabiolb/fabio/internal/zzverif/simcore"
 	"github.com/fabiolb/fabio/internal/zzverif/simnet"
+	"github.com/fabiolb/fabio/metrics"
+	"github.com/fabiolb/fabio/proxy"
 )
 
 func init() {
@@ -36,7 +38,13 @@ func init() {
 }
 
 type c08Cfg struct {
-	TLS            bool   `json:"tls_listener"`
+	TLS bool `json:"tls_listener"`
+	// Both: the process serves a plain listener (h2FabioAddr) and a TLS listener (c08TLSAddr) at the same time, as a
+	// fabio on :80 and :443 does; every request names the listener it goes to. TLS is unused then.
+	Both bool `json:"plain_and_tls_listener,omitempty"`
+	// OwnProxies (with Both): every listener has its own HTTPProxy value, as main.startServers builds them; otherwise
+	// one HTTPProxy value stands behind both listeners.
+	OwnProxies     bool   `json:"one_proxy_value_per_listener,omitempty"`
 	ClientIPHeader string `json:"clientip_header,omitempty"`
 	TLSHeader      string `json:"tls_header,omitempty"`
 	TLSHeaderValue string `json:"tls_header_value,omitempty"`
@@ -62,7 +70,17 @@ type c08Scenario struct {
 	Tasked bool `json:"handlers_interleaved_statement_by_statement"`
 }
 
-const c08ListenPort = "9999" // port of h2FabioAddr
+const c08ListenPort = "9999"        // port of h2FabioAddr
+const c08TLSAddr = "fabio.sim:9443" // the TLS listener of runs with both listeners
+const c08TLSListenPort = "9443"
+
+// c08ReqTLS tells whether the connection rq travelled on is a TLS connection.
+func c08ReqTLS(cfg *c08Cfg, rq *h2Req) bool {
+	if cfg.Both {
+		return rq.To == c08TLSAddr
+	}
+	return cfg.TLS
+}
 
 var c08PeerAddrs = []string{"192.0.2.10:5000", "[2001:db8::7]:5000", "[fe80::1%eth0]:5000", "[::ffff:192.0.2.9]:5000", "10.1.2.3:40000", "[2001:db8:0:1::a%7]:5000"}
 var c08Hosts = []string{"fabio.sim", "www.example.com", "www.example.com:8080", "Mixed.Example.COM", "fabio.sim:9999", "[2001:db8::99]:8443", "[2001:db8::99]", "192.0.2.1:81", "www.example.com:443"}
@@ -117,7 +135,14 @@ func c08Gen(g *simcore.Tape, thorough bool) *c08Scenario {
 		maxN = 5
 	}
 	c := &sc.Cfg
-	c.TLS = g.Bool()
+	switch g.Intn(4) {
+	case 0:
+	case 1:
+		c.TLS = true
+	default:
+		c.Both = true
+		c.OwnProxies = g.Bool()
+	}
 	c.ClientIPHeader = simcore.Pick(g, []string{"", "X-Client-Ip", "x-client-ip", "Client-IP", "X-Forwarded-For", "X-Real-Ip", "x-real-ip"})
 	c.TLSHeader = simcore.Pick(g, []string{"", "X-Tls", "Secure", "x-forwarded-ssl"})
 	c.TLSHeaderValue = simcore.Pick(g, []string{"true", "on", "1", ""})
@@ -143,7 +168,7 @@ func c08Gen(g *simcore.Tape, thorough bool) *c08Scenario {
 	nc := g.Range(1, maxN)
 	id := 0
 	for ci := 0; ci < nc; ci++ {
-		cl := h2Client{Addr: simcore.Pick(g, c08PeerAddrs), TLS: c.TLS}
+		cl := h2Client{Addr: simcore.Pick(g, c08PeerAddrs), TLS: c.TLS && !c.Both}
 		// distinct source ports per client so that connection ids stay unique
 		if host, port, err := net.SplitHostPort(cl.Addr); err == nil {
 			p, _ := strconv.Atoi(port)
@@ -153,6 +178,12 @@ func c08Gen(g *simcore.Tape, thorough bool) *c08Scenario {
 		for k := 0; k < n; k++ {
 			rq := h2Req{ID: fmt.Sprintf("r%d", id), Method: "GET", Host: simcore.Pick(g, c08Hosts)}
 			id++
+			if c.Both && g.Bool() {
+				// the client keeps one connection per listener: its requests alternate between the two as drawn
+				rq.To = c08TLSAddr
+			}
+			// a later request to the same listener travels on a fresh connection instead of the kept-alive one
+			rq.CloseAfter = c08Chance(g, 25)
 			rq.Route = g.Intn(nr)
 			rq.Path = sc.Routes[rq.Route].Prefix + simcore.Pick(g, []string{"", "/a", "/a/b"})
 			if c08Chance(g, 8) {
@@ -209,6 +240,9 @@ func c08Gen(g *simcore.Tape, thorough bool) *c08Scenario {
 			}
 			if upgrade && c08Chance(g, 80) {
 				rs = h2Resp{Status: 101, Headers: []h2Header{{"Upgrade", "websocket"}, {"Connection", "Upgrade"}}}
+			} else if !upgrade && c08Chance(g, 20) {
+				// interim responses (103 Early Hints) before the final one
+				rs.Early = g.Range(1, 2)
 			}
 			rs.BodyLen = len(rs.Body)
 			rq.Resp = rs
@@ -220,6 +254,11 @@ func c08Gen(g *simcore.Tape, thorough bool) *c08Scenario {
 		sc.Clients = append(sc.Clients, cl)
 	}
 	sc.Tasked = c08Chance(g, 35)
+	if c.Both {
+		// what one request leaves behind for the next one (recycled objects, memos) is only deterministic when the
+		// handlers are tasks: sync.Pool is then a LIFO of the run instead of the runtime's per-P caches
+		sc.Tasked = true
+	}
 	return sc
 }
 
@@ -270,7 +309,19 @@ func runC08(r *simcore.Run) {
 		}
 		r.Probe("tasked_handlers")
 	}
-	if sc.Cfg.TLS {
+	if sc.Cfg.Both {
+		e.serve(nil)
+		var own *proxy.HTTPProxy
+		if sc.Cfg.OwnProxies {
+			dp := metrics.DiscardProvider{}
+			own = newHTTPProxy(cfg, &proxy.HttpStatsHandler{Noroute: dp.NewCounter("notfound"), Requests: dp.NewHistogram("requests"),
+				WSConn: dp.NewGauge("ws.conn"), StatusTimer: dp.NewHistogram("http.status", "code"), RedirectCounter: dp.NewCounter("http.redirect.count", "code")})
+			own.UUID = e.proxy.UUID
+			r.Probe("both_listeners_own_proxies")
+		}
+		e.serveAt(c08TLSAddr, &tls.Config{Certificates: []tls.Certificate{zzSelfSigned()}}, own)
+		r.Probe("both_listeners")
+	} else if sc.Cfg.TLS {
 		e.serve(&tls.Config{Certificates: []tls.Certificate{zzSelfSigned()}})
 		r.Probe("tls_listener")
 	} else {
@@ -294,8 +345,28 @@ func runC08(r *simcore.Run) {
 		if len(cl.Reqs) > 1 {
 			r.Probe("keepalive_reuse")
 		}
+		c08SequenceProbes(r, sc, cl)
 		for qi := range cl.Reqs {
 			c08Check(r, e, sc, cl, &cl.Reqs[qi])
+		}
+	}
+}
+
+// c08SequenceProbes counts the request sequences of one client that carry state from one request to the next.
+func c08SequenceProbes(r *simcore.Run, sc *c08Scenario, cl *h2Client) {
+	for i := 1; i < len(cl.Reqs); i++ {
+		prev, cur := &cl.Reqs[i-1], &cl.Reqs[i]
+		if sc.Cfg.Both && c08ReqTLS(&sc.Cfg, prev) && !c08ReqTLS(&sc.Cfg, cur) {
+			r.Probe("plain_request_after_tls_request")
+		}
+		if sc.Cfg.Both && !c08ReqTLS(&sc.Cfg, prev) && c08ReqTLS(&sc.Cfg, cur) {
+			r.Probe("tls_request_after_plain_request")
+		}
+		for j := 0; j < i; j++ {
+			if cl.Reqs[j].To == cur.To && cl.Reqs[j].CloseAfter {
+				r.Probe("fresh_connection_after_close")
+				break
+			}
 		}
 	}
 }
@@ -407,6 +478,12 @@ func c08Check(r *simcore.Run, e *h2Env, sc *c08Scenario, cl *h2Client, rq *h2Req
 	res := e.results[rq.ID]
 	seen := e.seen[rq.ID]
 	cfg := &sc.Cfg
+	// the facts of the connection this request travelled on
+	onTLS := c08ReqTLS(cfg, rq)
+	listenPort := c08ListenPort
+	if cfg.Both && onTLS {
+		listenPort = c08TLSListenPort
+	}
 	ap, err := netip.ParseAddrPort(cl.Addr)
 	if err != nil {
 		r.Trouble("scenario peer address %q: %v", cl.Addr, err)
@@ -422,7 +499,16 @@ func c08Check(r *simcore.Run, e *h2Env, sc *c08Scenario, cl *h2Client, rq *h2Req
 		kind = "upgrade"
 		r.Probe("upgrade_" + upgradeVals[0])
 	}
-	what := fmt.Sprintf("%s %s Host=%q from %s tls=%v (id %s)", rq.Method, rq.Path, rq.Host, cl.Addr, cfg.TLS, rq.ID)
+	// lsn names the listener situation in signatures: runs with one listener keep the bare signatures
+	lsn := ""
+	if cfg.Both {
+		lsn = "both-listeners/"
+		kind = lsn + kind
+	}
+	what := fmt.Sprintf("%s %s Host=%q from %s tls=%v (id %s)", rq.Method, rq.Path, rq.Host, cl.Addr, onTLS, rq.ID)
+	if cfg.Both {
+		what += " in a process serving a plain and a TLS listener"
+	}
 	if res == nil {
 		r.Trouble("no result for %s", rq.ID)
 		return
@@ -446,23 +532,23 @@ func c08Check(r *simcore.Run, e *h2Env, sc *c08Scenario, cl *h2Client, rq *h2Req
 			}
 		}
 		switch {
-		case !cfg.TLS && len(got) > 0:
-			r.Fail("sts", "plain/added", "%s: plain connection, response carries Strict-Transport-Security %q that no upstream sent", what, got)
-		case cfg.TLS && cfg.STSMaxAge <= 0 && len(got) > 0:
-			r.Fail("sts", "tls/added-though-disabled", "%s: proxy.header.sts.maxage=0 but the response carries Strict-Transport-Security %q", what, got)
-		case cfg.TLS && cfg.STSMaxAge > 0 && rq.Route >= 0 && !isUpgrade && len(seen) == 1 && res.Status == rq.Resp.Status:
+		case !onTLS && len(got) > 0:
+			r.Fail("sts", lsn+"plain/added", "%s: plain connection, response carries Strict-Transport-Security %q that no upstream sent", what, got)
+		case onTLS && cfg.STSMaxAge <= 0 && len(got) > 0:
+			r.Fail("sts", lsn+"tls/added-though-disabled", "%s: proxy.header.sts.maxage=0 but the response carries Strict-Transport-Security %q", what, got)
+		case onTLS && cfg.STSMaxAge > 0 && rq.Route >= 0 && !isUpgrade && len(seen) == 1 && res.Status == rq.Resp.Status:
 			r.Probe("sts_expected")
 			if len(got) == 0 {
-				r.Fail("sts", "tls/missing", "%s: TLS connection with sts.maxage=%d: the response has no Strict-Transport-Security header", what, cfg.STSMaxAge)
+				r.Fail("sts", lsn+"tls/missing", "%s: TLS connection with sts.maxage=%d: the response has no Strict-Transport-Security header", what, cfg.STSMaxAge)
 			} else if msg := c08STSWrong(got[0], cfg); msg != "" {
-				r.Fail("sts", "tls/wrong-directives", "%s: Strict-Transport-Security %q: %s", what, got[0], msg)
+				r.Fail("sts", lsn+"tls/wrong-directives", "%s: Strict-Transport-Security %q: %s", what, got[0], msg)
 			}
 		}
 	}
 
 	if rq.Route < 0 {
 		if len(seen) > 0 {
-			r.Fail("request", "noroute-forwarded", "%s has no route but %s received it", what, seen[0].Upstream)
+			r.Fail("request", lsn+"noroute-forwarded", "%s has no route but %s received it", what, seen[0].Upstream)
 		}
 		return
 	}
@@ -561,22 +647,22 @@ func c08Check(r *simcore.Run, e *h2Env, sc *c08Scenario, cl *h2Client, rq *h2Req
 			r.Probe("forged_tls_header")
 		}
 		switch {
-		case cfg.TLS && len(got) == 0:
+		case onTLS && len(got) == 0:
 			fail("tls-header", cfg.TLSHeader, "tls/missing", "TLS connection but the configured TLS header %s did not reach the upstream", cfg.TLSHeader)
-		case cfg.TLS && (len(got) != 1 || got[0] != cfg.TLSHeaderValue):
+		case onTLS && (len(got) != 1 || got[0] != cfg.TLSHeaderValue):
 			fail("tls-header", cfg.TLSHeader, "tls/wrong-value", "TLS connection: header %s should carry exactly the configured value %q", cfg.TLSHeader, cfg.TLSHeaderValue)
-		case !cfg.TLS && len(got) > 0:
+		case !onTLS && len(got) > 0:
 			fail("tls-header", cfg.TLSHeader, "plain/present", "plain connection but the upstream received the TLS header %s", cfg.TLSHeader)
 		}
 	}
 
 	// ---- protocol of the client's actual connection ----
 	actual := []string{"http"}
-	if cfg.TLS {
+	if onTLS {
 		actual = []string{"https"}
 	}
 	if isUpgrade { // reading: an upgrade request may be described by its websocket scheme as well
-		if cfg.TLS {
+		if onTLS {
 			actual = append(actual, "wss")
 		} else {
 			actual = append(actual, "ws")
@@ -607,10 +693,10 @@ func c08Check(r *simcore.Run, e *h2Env, sc *c08Scenario, cl *h2Client, rq *h2Req
 		var ok []string
 		if _, p, err := net.SplitHostPort(rq.Host); err == nil && p != "" {
 			ok = []string{p}
-		} else if cfg.TLS {
-			ok = []string{"443", c08ListenPort} // reading: scheme default or the listener's real port
+		} else if onTLS {
+			ok = []string{"443", listenPort} // reading: scheme default or the listener's real port
 		} else {
-			ok = []string{"80", c08ListenPort}
+			ok = []string{"80", listenPort}
 		}
 		got := up["X-Forwarded-Port"]
 		switch {
